@@ -26,6 +26,19 @@ enum { EV_JOB_START = 1, EV_JOB_END, EV_ENQ_DONE, EV_WAIT_CALL, EV_WAIT_RET, EV_
 enum { C_POOL = 0, C_SCEN, C_WAITERS, C_DESTROY, C_OUTSIDE, C_N };
 
 void generate(Rng& r, Workload& w, int tier) {
+    // wide mode (rare, costly): one or two jobs on a pool of one or two workers enqueue hundreds to thousands
+    // of children -- a backlog far beyond the pool size, at and just past powers of two ("all job graphs":
+    // any bound on the queue that jobs themselves can hit shows here and nowhere else)
+    if (r.chance(1, tier ? 60 : 120)) {
+        static const int W[] = {129, 513, 1025, 1030, 2049, 2060, 4100};
+        const int n = W[r.below(7)];
+        const int64_t pool = int64_t(r.below(2));
+        const int roots = pool == 1 && r.chance(1, 2) ? 2 : 1;
+        w.cfg = {pool, 0, r.chance(1, 3) ? 1 : 0, 0, 0};
+        for (int i = 0; i < roots; ++i) w.ops.push_back({OP_ROOT, 0, 0, 0, 0});
+        for (int i = 0; i < n; ++i) w.ops.push_back({OP_CHILD, int64_t(i % roots), 0, 0, 0});
+        return;
+    }
     int64_t scen = r.chance(1, 4) ? 1 : 0;
     int64_t outside = r.chance(1, 3) ? r.range(1, 2) : 0;
     w.cfg = {r.range(0, tier ? 5 : 3), scen, r.chance(1, 3) ? 1 : 0, r.chance(1, 4) ? 1 : 0, outside};
@@ -323,6 +336,7 @@ void execute(const Workload& w, Result& res) {
         if (nstart < size_t(nj)) res.probe("terminated_with_queued_jobs");
     }
     if (nj == 0) res.probe("no_jobs");
+    for (auto& jb : cx.jobs) if (jb.children.size() > 1024 * size_t(p)) { res.probe("job_with_fan_out_beyond_1024_per_worker"); break; }
     res.probe("jobs", uint64_t(nj));
     if (g_nested_bad.load()) res.fail("quiescence", "a job that waited for a pool of its own (loop_until_empty on the inner pool) found inner jobs not run, their effects missing or done() short");
     uint64_t nst = 0;
